@@ -37,6 +37,13 @@ def project(nfiles, fmt, mode=None):
     if nfiles == 2:
         files = {"test_a.py": files["test_a.py"], "test_b.py": files["test_b.py"]}
     files["pyproject.toml"] = '[tool.inline-snapshot]\nformat-command="cat"\n' if fmt == "cmd" else ""
+    if mode == "clean":
+        # formatter-clean files: the whole file goes through the formatter once more when it is written
+        import black
+
+        for k in list(files):
+            if k.endswith(".py"):
+                files[k] = black.format_str(files[k], mode=black.Mode())
     if mode == "trim":
         # an unchanged file that references a persisted external, and an unreferenced persisted external: with trim
         # approved the second may go, the first must stay whatever fails on the way
@@ -49,7 +56,7 @@ def project(nfiles, fmt, mode=None):
 
 
 def bounds(tier):
-    return {"modes": ["create,fix", "create,fix,trim with a referenced and an unreferenced persisted external"], "configs": ["black", "cmd"], "files": [3] if tier == "quick" else [1, 2, 3], "kinds": faults.KINDS, "fault_pairs": "none" if tier == "quick" else "survivable formatter fault x later fault at open/write/rename/formatter boundaries (3-file change set)"}
+    return {"modes": ["create,fix", "create,fix,trim with a referenced and an unreferenced persisted external", "create,fix on formatter-clean files"], "configs": ["black", "cmd"], "files": [3] if tier == "quick" else [1, 2, 3], "kinds": faults.KINDS, "fault_pairs": "none" if tier == "quick" else "survivable formatter fault x later fault at open/write/rename/formatter boundaries (3-file change set)"}
 
 
 def _run(files, target, second=True, flags="create,fix"):
@@ -172,8 +179,8 @@ def _judge(case, files, new_ast, new_bytes=None):
 
 def explore(tier, seed, runner):
     done = []
-    combos = [(3, "black", None), (3, "cmd", None), (3, "black", "trim")] if tier == "quick" else (
-        [(n, f, None) for n in (1, 2, 3) for f in ("black", "cmd")] + [(3, "black", "trim"), (3, "cmd", "trim"), (1, "black", "trim")])
+    combos = [(3, "black", None), (3, "cmd", None), (3, "black", "trim"), (3, "black", "clean")] if tier == "quick" else (
+        [(n, f, None) for n in (1, 2, 3) for f in ("black", "cmd")] + [(3, "black", "trim"), (3, "cmd", "trim"), (1, "black", "trim"), (3, "black", "clean"), (1, "black", "clean")])
     rec_tasks = [{"record": {"nfiles": n, "fmt": f, "mode": m}} for n, f, m in combos]
     recs = runner(rec_tasks)
     tasks = []
